@@ -55,6 +55,11 @@ SPECS = {
 def oracle(scn, obs, ref, schedule):
     if obs.outcome != "ok":
         return []
+    lost = _inflight_uncacheable(obs)
+    if lost:
+        # the interrupted command is neither completed nor replayed (it is not replayable): everything after it is off the
+        # rails (e.g. a later 'unmonitor' is rejected), so the replay model has nothing sound to say about this execution
+        return [(f"in-flight-uncacheable-command-lost:{lost}", f"an interruption took effect while '{lost}' was executing; the command is never re-executed")]
     out, stats = check_replay(obs)
     obs.extra["replayed"] = stats["replayed"]
     # "... and then continues the plan where it was interrupted"
@@ -70,6 +75,24 @@ def oracle(scn, obs, ref, schedule):
                 k = next((i for i, (x, y) in enumerate(zip(a, b)) if x != y), min(len(a), len(b)))
                 out.append(("plan-did-not-continue-where-interrupted", f"plan-originated trace differs from the uninterrupted run at message {k}: {a[k:k+3]} vs {b[k:k+3]}"))
     return out
+
+
+def _inflight_uncacheable(obs):
+    """Command name if a pause/suspension took effect while a non-replayable command was in flight, else None."""
+    from bsv.oracles.replaymodel import NON_REPLAYABLE
+
+    cur = None
+    for t in obs.timeline:
+        if t[0] == "msg":
+            cur = t[2]
+        elif t[0] == "state" and t[1] in ("pausing", "suspending") and cur in NON_REPLAYABLE and cur not in ("pause", "_start_suspender"):
+            # the state changed between this message's hook and the next message: the engine was inside the command
+            # (a pause requested by Msg('pause') itself is that command completing, not an interruption of it)
+            if len(t) > 4 and t[3] == "loop" and t[4] not in (None, "", "sleep", "wait", "running"):
+                return cur  # _run was awaiting the command's own coroutine, not the sleep(0) between two messages
+        elif t[0] in ("doc",):
+            pass
+    return None
 
 
 def _n(m):
